@@ -261,7 +261,7 @@ def synthetic_doc(draw):
                 it["jumpType"] = draw(st.sampled_from(["[in]", "[out]"]))
             elif it["name"] == "JUMP" and draw(st.booleans()):
                 it["value"] = draw(st.sampled_from(["[in]", "[out]"]))
-            if draw(st.integers(0, 9)) == 0:
+            if draw(st.integers(0, 3)) == 0:
                 it["modifierDepth"] = draw(st.integers(1, 3))
     if draw(st.booleans()):
         # nested sub-assembly inside the runtime data
